@@ -8,6 +8,7 @@ from harness import refs
 from mirsym.interp import Panic, Inconclusive
 from mirsym.values import *
 from native import oracle
+from checks import hobl
 import checks.c13 as c13mod      # registers the shared replay predicates (c13_differs)
 
 UREM = z3.Function('urem_uf', z3.BitVecSort(64), z3.BitVecSort(64), z3.BitVecSort(64))
@@ -370,6 +371,8 @@ def main(chk):
     for sh in shapes:
         tasks.append((o3_bind, (prog,) + sh))
     chk.parallel(_dispatch, tasks)
+    # the selected shard is the one statements run on, an out-of-range SET SHARD is refused, the selection persists (Client::handle executed)
+    hobl.handle_obligations(chk, chk.program('on'), {'C06'}, ['commands'])
 
 
 def _dispatch(chk, fn, args):
